@@ -89,6 +89,11 @@ pub struct Session<'a> {
     pub stats: Stats,
     pub alive: bool,
     pub thr: u32,
+    /// largest code at least two floats below the press boundary / smallest code at least two floats
+    /// above it: the drivers never use the codes in between (a boundary that differs by one float, e.g.
+    /// from an algebraically equivalent formula, is inside the resolution of the property)
+    pub in_max: u32,
+    pub out_min: u32,
     pub need: usize,
     pub den: u32,
     pub shapes: HashSet<u64>,
@@ -96,7 +101,7 @@ pub struct Session<'a> {
 
 impl<'a> Session<'a> {
     pub fn new(out: &'a mut Out) -> Self {
-        Session { rib: None, out, stats: Stats::new(), alive: false, thr: 4096, need: 0, den: 4096, shapes: HashSet::new() }
+        Session { rib: None, out, stats: Stats::new(), alive: false, thr: 4096, in_max: 4095, out_min: 4096, need: 0, den: 4096, shapes: HashSet::new() }
     }
     fn panic_event(&mut self, during: &str, msg: &str) {
         self.out.line(&format!("{{\"op\":\"panic\",\"where\":\"ribbon\",\"during\":{},\"msg\":{}}}", jstr(during), jstr(msg)));
@@ -113,13 +118,28 @@ impl<'a> Session<'a> {
         let res = RESISTORS[ri];
         self.den = 1 << den_bits;
         self.thr = threshold_code_den(res, self.den);
+        let kb = key(boundary(res));
+        let denf = self.den as f32;
+        let mut c = self.thr.saturating_sub(1);
+        while c > 0 && kb - key(c as f32 / denf) < 2 {
+            c -= 1;
+        }
+        self.in_max = c;
+        let mut c = self.thr;
+        while c < self.den && key(c as f32 / denf) - kb < 2 {
+            c += 1;
+        }
+        self.out_min = c;
         let ec = (res.0 + res.1) / res.2;
+        // the buffer is sized for fs; the controller is told fs + frac (frac may be negative: a buffer
+        // sized for the nominal rate of a clock that runs a little slow) and truncates that to whole Hz
         let cap = sample_rate_to_capacity(fs);
-        let ig = (fs / 1000) as usize;
+        let told = (fs as f32 + frac) as u32;
+        let ig = (told / 1000) as usize;
         self.need = cap + ig.max(1) - 1;
         self.out.line(&format!(
-            "{{\"op\":\"new\",\"fs\":{},\"fr\":{},\"ri\":{},\"cap\":{},\"thr\":{},\"den\":{},\"bq\":{},\"ecq\":{}}}",
-            fs, key(frac), ri, cap, self.thr, self.den, q24(boundary(res)), q24(ec)
+            "{{\"op\":\"new\",\"fs\":{},\"cfs\":{},\"fr\":{},\"ri\":{},\"cap\":{},\"thr\":{},\"den\":{},\"bq\":{},\"ecq\":{}}}",
+            told, fs, key(frac), ri, cap, self.thr, self.den, q24(boundary(res)), q24(ec)
         ));
         self.stats.add("runs", 1);
         match guarded(|| make_frac(fs, frac, res)) {
@@ -228,7 +248,8 @@ impl<'a> Session<'a> {
     }
     /// n in-range samples (random codes), with edge polls sprinkled in
     pub fn hold(&mut self, rng: &mut Rng, n: usize, style: u32, poll_pm: u64) {
-        let base = rng.below(self.thr as u64 - 1) as u32;
+        let lim = self.in_max + 1; // codes below lim are safely in range
+        let base = rng.below(lim as u64 - 1) as u32;
         for i in 0..n {
             let code = match style {
                 0 => base,
@@ -236,15 +257,15 @@ impl<'a> Session<'a> {
                     if rng.chance(1, 60) {
                         u32::MAX // the sample -0.0
                     } else {
-                        rng.below(self.thr as u64) as u32
+                        rng.below(lim as u64) as u32
                     }
                 }
-                2 => ((base as usize + i * 7) % self.thr as usize) as u32,
+                2 => ((base as usize + i * 7) % lim as usize) as u32,
                 _ => {
                     if i % 2 == 0 {
                         0
                     } else {
-                        self.thr - 1
+                        lim - 1
                     }
                 }
             };
@@ -254,7 +275,7 @@ impl<'a> Session<'a> {
     }
     pub fn lift(&mut self, rng: &mut Rng, n: usize, poll_pm: u64) {
         for _ in 0..n {
-            let code = self.thr + rng.below((self.den - self.thr) as u64 + 1) as u32;
+            let code = self.out_min + rng.below((self.den - self.out_min) as u64 + 1) as u32;
             self.poll(code.min(self.den));
             self.maybe_edges(rng, poll_pm);
         }
@@ -266,7 +287,7 @@ pub fn drive_press(s: &mut Session, rng: &mut Rng, thorough: bool) {
     // one very long uninterrupted press (more than 2^16 samples) with a moving finger
     {
         s.start(2000, 0);
-        let thr = s.thr;
+        let thr = s.in_max + 1;
         let n = 70_000usize;
         for i in 0..n {
             let code = ((i / 3) % (thr as usize - 1)) as u32;
@@ -350,36 +371,36 @@ pub fn drive_fine(s: &mut Session, rng: &mut Rng, thorough: bool) {
         let ri = rng.below(6) as usize;
         s.start_ext(fs, 0.0, ri, 22);
         let n = if thorough { 40_000 } else { 9_000 };
-        let base = s.thr - 1 - (n / every) as u32 - rng.below(1000) as u32;
+        let base = s.in_max - (n / every) as u32 - rng.below(1000) as u32;
         for i in 0..n {
             s.poll(base + (i / every) as u32);
         }
         s.lift(rng, 2, 0);
         s.jr();
     }
-    // (b) the press boundary itself as a sample (exact on the 2^-24 grid), every resistor triple
+    // (b) samples two floats below / above the press boundary (2^-24 grid), every resistor triple
     for ri in 0..RESISTORS.len() {
         for &fs in &[100u32, 1000, 2000, 8000] {
             s.start_ext(fs, 0.0, ri, 24);
-            let (thr, need) = (s.thr, s.need);
-            // just below the boundary is a press ...
+            let (inm, outm, need) = (s.in_max, s.out_min, s.need);
+            // two floats below the boundary is a press ...
             for _ in 0..(need + 2) {
-                s.poll(thr - 1 - rng.below(3) as u32);
+                s.poll(inm - rng.below(3) as u32);
             }
             s.jp();
-            // ... the boundary itself is not: the finger is lifted and the value held
+            // ... two floats above it is not: the finger is lifted and the value held
             for _ in 0..3 {
-                s.poll(thr);
+                s.poll(outm);
             }
             s.jr();
             for _ in 0..(need + 2) {
-                s.poll(thr - 1);
+                s.poll(inm);
             }
-            s.poll(thr);
-            s.poll(thr + 1);
-            // a run of boundary samples is no press either
+            s.poll(outm);
+            s.poll(outm + 1);
+            // a run of samples just above the boundary is no press either
             for _ in 0..(need + 2) {
-                s.poll(thr);
+                s.poll(outm);
             }
             s.jp();
             s.shapes.insert((fs as u64) << 8 | ri as u64 | 1 << 40);
@@ -387,7 +408,7 @@ pub fn drive_fine(s: &mut Session, rng: &mut Rng, thorough: bool) {
     }
     // (c) sample rates with a fractional part (truncated to whole Hz by the controller)
     for &(fs, frac) in &[(1999u32, 0.5f32), (1999, 0.25), (9999, 0.75), (999, 0.75), (47999, 0.75), (1000, 0.4), (10000, 0.4),
-                         (44100, 0.5), (2000, 0.99), (500, 0.5)] {
+                         (44100, 0.5), (2000, 0.99), (500, 0.5), (2000, -0.1), (1000, -0.5), (10000, -0.25), (48000, -0.5), (500, -0.01)] {
         if fs > 20000 && !thorough && frac != 0.75 {
             continue;
         }
@@ -408,8 +429,8 @@ pub fn drive_fine(s: &mut Session, rng: &mut Rng, thorough: bool) {
         }
         s.start(fs, rng.below(3) as usize);
         let need = s.need;
-        let code = rng.below(s.thr as u64) as u32;
-        let thr = s.thr;
+        let code = rng.below(s.in_max as u64 + 1) as u32;
+        let thr = s.out_min;
         s.repeat(cycles, 3, |s| {
             for _ in 0..(need + 1) {
                 s.poll(code);
@@ -535,8 +556,8 @@ pub fn drive_extreme(s: &mut Session, rng: &mut Rng) {
         for ri in 0..3 {
             s.start(fs, ri);
             let need = s.need;
-            let thr = s.thr;
-            let codes = [0u32, 4096, thr - 1, thr, 1, 4095, u32::MAX];
+            let thr = s.out_min;
+            let codes = [0u32, 4096, s.in_max, thr, 1, 4095, u32::MAX];
             for _ in 0..(need / 2 + 10).min(400) {
                 s.poll(*rng.pick(&codes));
             }
@@ -563,7 +584,8 @@ fn rerun_one(s: &mut Session, e: &serde_json::Value) {
                 } else {
                     let den = e.get("den").and_then(|d| d.as_u64()).unwrap_or(4096);
                     let frac = e.get("fr").and_then(|d| d.as_i64()).map(unkey).unwrap_or(0.0);
-                    s.start_ext(e["fs"].as_u64().unwrap() as u32, frac, e["ri"].as_u64().unwrap_or(0) as usize, den.trailing_zeros())
+                    let cfs = e.get("cfs").and_then(|d| d.as_u64()).unwrap_or(e["fs"].as_u64().unwrap());
+                    s.start_ext(cfs as u32, frac, e["ri"].as_u64().unwrap_or(0) as usize, den.trailing_zeros())
                 }
             }
             "p" => s.poll(e["x"].as_u64().unwrap() as u32),
